@@ -51,9 +51,34 @@ def c05(chk):
         cmds += ["bg b connect 1 0", "join a", "join b", "sleep 3000",
                  "peers 0", "peers 1", "events 0", "events 1",
                  "rpc 0 1 id=x size=100", "rpc 1 0 id=y size=100",
-                 "sleep 5000", "events 0", "events 1", "peers 0", "peers 1"]
+                 "sleep 5000", "events 0", "events 1", "peers 0", "peers 1", "ranks", "trace active"]
         scen.append("simnet " + " ; ".join(cmds))
     outs, parsed = run_scenarios(chk, scen, "fabric:mutual-dial")
+    # both sides' recorded active-peer histories (with the pre-state every operation saw) replayed on ActivePeers.v
+    hcases, hmeta = [], []
+    for k, res in enumerate(parsed):
+        if res is None:
+            continue
+        hists, rank = ap_histories(res[-1], res[-2], [0, 1])
+        for own, live, h in (hists or []):
+            hcases.append(h)
+            hmeta.append((k, own, rank))
+    for (k, own, rank), h, m in zip(hmeta, hcases, run_model(hcases)):
+        chk.evaluations += 1
+        chk.count("active-peer-history-ops", len(h.split()) - 1)
+        res, sc = parsed[k], scen[k]
+        cmds = [c.strip() for c in sc[len("simnet "):].split(" ; ")][1:]
+        inv = dict((v, kk) for kk, v in rank.items())
+        ml = re.search(r"L=\[(.*?)\] ev=(.*)$", m)
+        if not m.startswith("accepted") or not ml:
+            chk.disagree(sc, "node %d active-peer history: %s" % (own, h[:2000]), "ActivePeers.v: " + m[:600], "simnet/aphist")
+            continue
+        mlist = sorted(str(inv[int(x)]) for x in ml.group(1).split(",") if x)
+        mev = ["%s%d%s" % (e[0], inv[int(e[1:].split(":")[0])], (":" + REASONS[int(e.split(":")[1])]) if ":" in e else "") for e in ml.group(2).split(",") if e]
+        evs = [e for c, x in zip(cmds, res) if c == "events %d" % own for e in x.strip("[]").split(",") if e and e != "END"]
+        final_listing = sorted(x for x in [x for c, x in zip(cmds, res) if c == "peers %d" % own][-1].strip("[]").split(",") if x)
+        if mlist != final_listing or (not any(e.startswith("LAG") for e in evs) and mev != evs):
+            chk.disagree(sc, "node %d: final listing %s events %s" % (own, final_listing, evs), "ActivePeers.v on its recorded history: listing %s events %s" % (mlist, mev), "simnet/aphist-observables")
     for sc, o, res in zip(scen, outs, parsed):
         if res is None:
             continue
